@@ -1485,7 +1485,7 @@ class Response:
         if (
             req.range
             and self in req.if_range
-            and self.content_range is None
+            and "Content-Range" not in self.headers
             and method in ("HEAD", "GET")
             and self.status_code == 200
             and self.content_length is not None
